@@ -164,7 +164,7 @@ def correspond(ctx):
                 "distinct by (sampler, type, first word)",
         "samples": [lines[0][:200], lines[-1][:200]],
         "mismatches": mismatches, "oracle_failures": oracle_failures,
-        "extra": {"table_entries_checked": nbits, "sampler_cases": per, "branch_counts": branch, "case_stats": stats},
+        "extra": {"table_entries_checked": nbits, "sampler_cases": per, "branch_counts": branch, "case_stats": stats, "distinct_model_paths": ctx.get("model_paths", {})},
     }
 
 
